@@ -469,7 +469,7 @@ def long_cases():
 
 
 def jobs(tier, seed):
-    n, shards = (2000, 8) if tier == "quick" else (112000, 16)
+    n, shards = (2000, 8) if tier == "quick" else (336000, 16)
     out = [{"name": "sequences", "kind": "seq"}, {"name": "long-outage", "kind": "long"}]
     out += [{"name": f"hyp-{i}", "kind": "hyp", "seed": seed * 1000 + i, "n": n // shards} for i in range(shards)]
     return out
